@@ -4,7 +4,7 @@
    unsuppressed batch). *)
 From AM Require Import Base.Prelude Gen.Consts Model.Matchers Model.Silence Model.Silencer Proofs.SilenceProofs
   Proofs.SilenceLwwProofs Proofs.SilencerProofs.
-From AM Require Import Model.Group Proofs.GroupProofs Model.Pipeline.
+From AM Require Import Model.Group Proofs.GroupProofs Proofs.GroupLiveness Model.Pipeline.
 
 (* ---------- two facts about one step of the group ---------- *)
 
@@ -378,5 +378,78 @@ Proof.
     + destruct (is_tick e); [discriminate|]. destruct (Group.step _ _ _ _) as [[g' o']|]; [|discriminate].
       inversion Hs; subst. exact IH.
 Qed.
+
+(* ---------- the other direction, composed with the group's bounded response (C01): an alert that is firing and NOT
+   silenced at the flushes of a product run is notified within the batching bound ---------- *)
+
+Section Positive.
+Variables (ax : Z) (i : nat) (T : Z).
+
+(* what "continuously firing, not silenced, not dropped by the other stages, integration accepting deliveries" means
+   for a product run: the silence clause is evaluated on the silence store as it is at each flush *)
+Fixpoint pfair (P : pstate) (h : list (Z * pev)) : Prop :=
+  match h with
+  | [] => True
+  | (t, e) :: r =>
+      match e with
+      | PTick _ other => silenced (fst (p_sc P)) t ax = false /\ ~ In ax other
+      | PGrp (EInsert b) => a_id b = ax -> firing_until T b
+      | PGrp (EAttempt j oc) => j = i -> oc = OK
+      | PGrp (ECtxDone j) => j <> i
+      | _ => True
+      end /\
+      match pstep cfg c x lbl P t e with Some (P1, _) => pfair P1 r | None => True end
+  end.
+
+Lemma pfair_view h : forall P P' outs,
+  PInv P -> phist_ok P h -> prun cfg c x lbl P h = Some (P', outs) -> pfair P h ->
+  fair ax i T (pview cfg c x lbl P h).
+Proof.
+  induction h as [|[t e] h IH]; intros P P' outs HI Hok H Hf; cbn [prun pview] in *.
+  - repeat split; cbn; intros; tauto.
+  - destruct Hok as [Hok Hokr]. destruct Hf as [Hf Hfr].
+    destruct (pstep cfg c x lbl P t e) as [[P1 o1]|] eqn:Hs; [|discriminate].
+    destruct (prun cfg c x lbl P1 h) as [[P2 o2]|] eqn:Hr; [|discriminate].
+    pose proof (IH P1 _ _ (pstep_inv _ _ _ _ _ HI Hok Hs) Hokr Hr Hfr) as (F1 & F2 & F3 & F4).
+    destruct e as [so|tau other|e].
+    + repeat split.
+      * intros t' b [Hc|Hin]; [discriminate|]. eapply F1; eauto.
+      * intros t' tau' sup [Hc|Hin]; [discriminate|]. eapply F2; eauto.
+      * intros t' oc [Hc|Hin]; [discriminate|]. eapply F3; eauto.
+      * intros t' [Hc|Hin]; [discriminate|]. eapply F4; eauto.
+    + destruct P as [[S C] g fo]. destruct HI as (HC & _ & _). cbn [pstep p_sc p_g p_flush fst snd] in *.
+      destruct (mute_ids x lbl S t C (passed other (flush_ids g t))) as [C' [sup|]] eqn:Hm; [|discriminate].
+      destruct (Group.step cfg g t (ETick tau (sup ++ other))) as [[g' o']|] eqn:Hg; [|discriminate].
+      pose proof (step_time _ _ _ _ _ _ Hg) as [Hle _].
+      destruct (mute_ids_correct (passed other (flush_ids g t)) _ _ _ t HC Hle) as (C'' & Hm' & _). rewrite Hm' in Hm.
+      injection Hm as <- <-. cbn [snd]. destruct Hf as [Hsil Hno]. repeat split.
+      * intros t' b [Hc|Hin]; [discriminate|]. eapply F1; eauto.
+      * intros t' tau' sup' [Hc|Hin]; [|eapply F2; eauto]. injection Hc as <- <- <-. intros Hin.
+        apply in_app_or in Hin as [Hin|Hin]; [|contradiction].
+        apply elem_of_list_In, elem_of_list_filter in Hin as [Hin _]. rewrite Hsil in Hin. exact Hin.
+      * intros t' oc [Hc|Hin]; [discriminate|]. eapply F3; eauto.
+      * intros t' [Hc|Hin]; [discriminate|]. eapply F4; eauto.
+    + repeat split.
+      * intros t' b [Hc|Hin]; [|eapply F1; eauto]. injection Hc as -> ->. exact Hf.
+      * intros t' tau' sup [Hc|Hin]; [|eapply F2; eauto]. injection Hc as -> ->.
+        cbn [pstep] in Hs. cbn in Hs. discriminate.
+      * intros t' oc [Hc|Hin]; [|eapply F3; eauto]. injection Hc as -> ->. apply Hf. reflexivity.
+      * intros t' [Hc|Hin]; [|eapply F4; eauto]. injection Hc as -> ->. apply Hf. reflexivity.
+Qed.
+
+Theorem unsilenced_is_notified h P P' outs g M :
+  PInv P -> phist_ok P h -> prun cfg c x lbl P h = Some (P', outs) -> pfair P h ->
+  s_group (p_g P) = Some g -> gr_flight g = None -> has_x ax T g ->
+  Z.max (gr_deadline g) (s_clock (p_g P)) <= M -> M <= T -> (i < length (g_ints cfg))%nat -> 0 <= g_timeout cfg ->
+  M + g_timeout cfg < s_clock (p_g P') ->
+  notified ax i outs \/ ever cfg (listed ax i) (p_g P) (pview cfg c x lbl P h).
+Proof.
+  intros HI Hok Hrun Hf Hg Hfl Hx HM HT Hi Hto Hlt.
+  pose proof (prun_proj h P P' outs Hrun) as Hproj. destruct HI as (HC & Hwf & Hcl).
+  exact (idle_phase cfg ax i T _ _ _ _ g M Hproj Hwf (pfair_view h P P' outs (conj HC (conj Hwf Hcl)) Hok Hrun Hf)
+           Hg Hfl Hx HM HT Hi Hto Hlt).
+Qed.
+
+End Positive.
 
 End Pipe.
